@@ -58,11 +58,29 @@ func TestVerifC01(t *testing.T) {
 			nil, []string{"2001:db8:10::/48", "2001:db8:20::/48"}},
 		{"prefix-and-route-same-base", head + "[[interfaces.prefix]]\nprefix = \"2001:db8:10::/64\"\n[[interfaces.route]]\nprefix = \"::/0\"\n[[interfaces.prefix]]\nprefix = \"::/64\"\n",
 			[]string{"2001:db8:10::1/64", "2001:db8:10:1::1/64"}, []string{"2001:db8:10::/64", "2001:db8:10::/48"}},
+		// a default route anchored on lo next to the route wildcard, on an interface that is not forwarding: the route
+		// options keep the stanza's lifetime (only the ROUTER lifetime is zeroed)
+		{"wildcard-route-default-on-lo", head + "[[interfaces.route]]\nprefix = \"::/0\"\npreference = \"high\"\nlifetime = \"10m\"\n",
+			nil, []string{"::/0"}},
+		{"wildcard-route-default-and-48", head + "[[interfaces.route]]\nprefix = \"::/0\"\nlifetime = \"10m\"\n[[interfaces.prefix]]\nprefix = \"::/64\"\n",
+			[]string{"2001:db8:10::1/64"}, []string{"::/0", "2001:db8:10::/48"}},
+		// one stanza for a group of interfaces: every member expands the wildcards over ITS addresses
+		{"names-group-wildcards", "[[interfaces]]\nnames = [\"eth0\", \"eth1\", \"eth2\"]\nadvertise = true\n[[interfaces.prefix]]\nprefix = \"::/64\"\n[[interfaces.rdnss]]\nservers = [\"::\"]\n[[interfaces.route]]\nprefix = \"::/0\"\n",
+			[]string{"2001:db8:a0::1/64", "2001:db8:a1::1/64"}, []string{"2001:db8:ee::/48"}},
 	} {
 		f := f
+		calls := 0
 		vbSysFix = func(s *vbSys) {
-			s.addrsFail, s.routesFail, s.fwd = false, false, true
+			calls++
+			s.addrsFail, s.routesFail, s.fwd = false, false, !strings.Contains(f.name, "default")
 			s.addrs, s.routes = nil, nil
+			if calls > 1 {
+				// the other members of a `names` group: other addresses, other routes, another hardware address
+				s.addrs = append(s.addrs, system.IP{Address: netip.MustParsePrefix(fmt.Sprintf("2001:db8:b%d::1/64", calls)), ValidForever: true})
+				s.routes = append(s.routes, system.Route{Prefix: netip.MustParsePrefix(fmt.Sprintf("2001:db8:c%d::/48", calls)), Index: 1, Preference: ndp.Medium})
+				s.mac = net.HardwareAddr{2, 0, 0, 0, 0, byte(0xe0 + calls)}
+				return
+			}
 			for _, a := range f.addrs {
 				s.addrs = append(s.addrs, system.IP{Address: netip.MustParsePrefix(a), ValidForever: true})
 			}
